@@ -408,6 +408,13 @@ def check_heap_shape(ck, P, rid, sites):
                     ck.violated(rid, inst, g.where, "sift-up continues when %s%s(%s, %s): the new element climbs over parents that come before it, so the minimum is no longer at the root"
                                 % ("!" if neg else "", "cmp", res["a"], res["b"]), cfgname)
                     continue
+                if neg and f.file.endswith("serial/serial.c"):
+                    # the serial main loop dispatches the root, lets the handler insert new events, and only then extracts "the root":
+                    # an inserted event that is merely not-after the root must not climb over it
+                    ck.violated(rid, inst, g.where, "sift-up is not strict (continues while !cmp(parent, elem)): an event scheduled by the handler that ties with the event being processed "
+                                "(same time, type, size and payload, possibly for another LP) climbs to the root; the serial loop then extracts and frees the new event instead of the "
+                                "processed one, which is dispatched again", cfgname)
+                    continue
                 mv = [(_store_elem(s, "items"), s) for s in stmts]
                 mv = [(m, s) for m, s in mv if m]
                 up = [(_assign_to(s, H), s) for s in stmts]
